@@ -53,6 +53,8 @@ class Contract:
         self.closures = {}     # ordinal -> (expected param text, [header line, prelude lines...])
         self.used = False
         self.mode = None       # 'spec-const' etc.
+        self.params = None     # parameter names the clauses were written with (R22)
+        self.binds = []        # (name used in the clauses, regex with one group that finds the local's current name)
         self.ensures_false_ok = True
 
 
@@ -129,7 +131,7 @@ def parse_sidecar(path, relsrc):
             if s:
                 raise ExtractError(f"{path}:{i}: text outside a section: {s!r}")
             continue
-        m = re.match(r"(ret|props|external_body|attr|sig-expect|sig|mode):\s*(.*)$", s)
+        m = re.match(r"(ret|props|external_body|attr|sig-expect|sig|mode|params):\s*(.*)$", s)
         if m and buf is None or (m and not line.startswith("    ")):
             flush()
             section = None
@@ -148,6 +150,8 @@ def parse_sidecar(path, relsrc):
                 cur.sig_expect = v
             elif k == "mode":
                 cur.mode = v
+            elif k == "params":
+                cur.params = v.split()
             continue
         m = re.match(r"(requires|ensures|decreases|recommends|no_unwind|returns):\s*$", s)
         if m:
@@ -158,6 +162,12 @@ def parse_sidecar(path, relsrc):
         if m:
             flush()
             section = (m.group(2), int(m.group(1)))
+            continue
+        m = re.match(r"bind\s+(\w+):\s*/(.*)/\s*$", s)
+        if m and cur is not None:
+            flush()
+            section = None
+            cur.binds.append((m.group(1), m.group(2)))
             continue
         m = re.match(r"rewrite\s+(\w+):\s*/(.*)/\s*=>\s*(.*)$", s)
         if m and cur is not None:
@@ -229,6 +239,7 @@ class Gen:
     def __init__(self, repo, cdir, vacuity=False, force_external=(), fallback=False):
         self.force_external = set(force_external)   # "src::key" of functions to leave unverified
         self.fallback = fallback                    # an ExtractError inside one function externalises it
+        self.param_names = {}
         self.externalised = []                      # [(src, key, reason)]
         self.repo = repo
         self.cdir = cdir
@@ -547,6 +558,21 @@ class Gen:
             self.out[-1] += ","
             self.clauses.append({"id": cl.cid, "tags": cl.tags, "kind": cl.kind, "fn": key, "src": relsrc, "text": cl.text.strip()})
 
+    def rename_contract(self, c, ren):
+        """copy of contract `c` with whole-word occurrences of the old parameter names (not field accesses)
+        replaced in every clause, loop clause, closure specification and hint"""
+        import copy
+        def sub(txt):
+            for o, n in ren.items():
+                txt = re.sub(r"(?<![\w.])" + re.escape(o) + r"\b", "\x00" + n + "\x00", txt)
+            return txt.replace("\x00", "")
+        c2 = copy.copy(c)
+        c2.clauses = [Clause(cl.kind, cl.tags, sub(cl.text), cl.cid) for cl in c.clauses]
+        c2.loops = {k: [Clause(cl.kind, cl.tags, sub(cl.text), cl.cid) for cl in v] for k, v in c.loops.items()}
+        c2.hints = [(m, r, sub(t)) for (m, r, t) in c.hints]
+        c2.closures = {k: (v[0], [sub(x) for x in v[1]]) if isinstance(v, tuple) else v for k, v in c.closures.items()}
+        return c2
+
     # -- functions
     def fn_item(self, it, relsrc, key, c, attrs, ind, container):
         in_trait_decl = container is not None and container.kind == "trait"
@@ -633,6 +659,24 @@ class Gen:
             params = re.sub(r"^\s*mut\s+self\b", "self", params, count=1)
             mut_self = True
             self.count("R2_mut_self")
+        # R22: contracts are written with the parameter names of the tree they were written for (side-car
+        # `params:`); when the code renames a parameter the clauses are renamed with it
+        actual_names = []
+        for prm in split_top(params):
+            mm = re.match(r"\s*(?:mut\s+)?(\w+)\s*:", prm)
+            actual_names.append(mm.group(1) if mm and not re.match(r"\s*&?\s*(?:'\w+\s+)?(?:mut\s+)?self\b", prm) else None)
+        actual_names = [n for n in actual_names if n is not None or True]
+        self.param_names[(relsrc, key)] = [n for n in actual_names if n]
+        if c.params is not None and c.sig_override is None:
+            mine = [n for n in actual_names if n]
+            if len(mine) == len(c.params) and mine != c.params:
+                ren = {o: n for o, n in zip(c.params, mine) if o != n}
+                if set(ren.values()) & (set(c.params) - set(ren.keys())):
+                    raise ExtractError(f"{relsrc}: {key}: parameters renamed onto names the contract uses")
+                c = self.rename_contract(c, ren)
+                self.count("R22_param_renamed", len(ren))
+            elif len(mine) != len(c.params):
+                raise ExtractError(f"{relsrc}: {key}: parameter list changed (contract written for {c.params}, found {mine})")
         # R8: tuple patterns in parameters  `(a, b): T`  ->  `arg0: T` + `let (a, b) = arg0;`
         pre_lets = []
         plist = split_top(params)
@@ -736,6 +780,20 @@ class Gen:
 
     # -- body rewrites (token level)
     def rewrite_body(self, body, relsrc, key, c, mut_self):
+        # R22 (locals): a loop invariant has to mention the local it is about; the side-car names it through an
+        # anchor (`bind NAME: /regex/`) so that renaming the local renames the clauses with it
+        if c.binds:
+            ren = {}
+            for name, rx in c.binds:
+                found = re.findall(rx, body)
+                if len(found) != 1:
+                    raise ExtractError(f"{relsrc}: {key}: bind anchor /{rx}/ matched {len(found)} times (anchor lost)")
+                cur = found[0] if isinstance(found[0], str) else found[0][0]
+                if cur != name:
+                    ren[name] = cur
+            if ren:
+                c = self.rename_contract(c, ren)
+                self.count("R22_local_renamed", len(ren))
         toks = lex(body)
         sig = [i for i, t in enumerate(toks) if t.kind not in ("ws", "comment", "doc")]
         edits = []   # (start, end, replacement)
@@ -1287,6 +1345,7 @@ def main():
     ap.add_argument("--vacuity", action="store_true")
     ap.add_argument("--fallback", action="store_true", help="a function the extractor cannot handle is emitted external_body (bounded stand-in decided by the driver)")
     ap.add_argument("--external-body", default="", help="';'-separated src::key list of functions to leave unverified")
+    ap.add_argument("--dump-params", default="", help="write {src::key: [parameter names]} of the current tree to this file (used to fill the side-cars' `params:` lines)")
     a = ap.parse_args()
     try:
         fe = [x for x in a.external_body.split(';') if x]
@@ -1306,6 +1365,9 @@ def main():
         }
         with open(a.out + ".map.json", "w") as f:
             json.dump(meta, f)
+        if a.dump_params:
+            with open(a.dump_params, "w") as f:
+                json.dump({f"{k[0]}::{k[1]}": v for k, v in g.param_names.items()}, f, indent=1)
         if a.vacuity:
             gv = generate(a.repo, a.contracts, True, fe, a.fallback)
             with open(a.out.replace(".rs", "_vacuity.rs"), "w") as f:
